@@ -1173,6 +1173,12 @@ VARIANTS += [
          edits=[dict(file='ipa-core/src/ff/prime_field.rs', find='                buf: &GenericArray<u8, Self::Size>,\n            ) -> Result<Self, Self::DeserializationError> {\n                let v = <$backend_store>::from_le_bytes((*buf).into());\n                if v < Self::PRIME {\n                    Ok(Self(v))\n                } else {\n                    Err(GreaterThanPrimeError(v, Self::PRIME.into()))\n                }\n            }\n        }\n\n', replace='                buf: &GenericArray<u8, Self::Size>,\n            ) -> Result<Self, Self::DeserializationError> {\n                let v = <$backend_store>::from_le_bytes((*buf).into());\n                // only canonical representatives, i.e. values in `0..PRIME`, are accepted\n                (v < Self::PRIME)\n                    .then(|| Self(v))\n                    .ok_or_else(|| GreaterThanPrimeError(v, Self::PRIME.into()))\n            }\n        }\n\n')]),
     dict(prop="C08", name="deserialize-then-accepts-prime", expect=['RANGE-invariant', 'deserialize'],
          edits=[dict(file='ipa-core/src/ff/prime_field.rs', find='                buf: &GenericArray<u8, Self::Size>,\n            ) -> Result<Self, Self::DeserializationError> {\n                let v = <$backend_store>::from_le_bytes((*buf).into());\n                if v < Self::PRIME {\n                    Ok(Self(v))\n                } else {\n                    Err(GreaterThanPrimeError(v, Self::PRIME.into()))\n                }\n            }\n        }\n\n', replace='                buf: &GenericArray<u8, Self::Size>,\n            ) -> Result<Self, Self::DeserializationError> {\n                let v = <$backend_store>::from_le_bytes((*buf).into());\n                // only canonical representatives, i.e. values in `0..PRIME`, are accepted\n                (v <= Self::PRIME)\n                    .then(|| Self(v))\n                    .ok_or_else(|| GreaterThanPrimeError(v, Self::PRIME.into()))\n            }\n        }\n\n')]),
+    dict(prop="C08", name="b8-window-test-ne-early-return", benign=True,
+         edits=[dict(file='ipa-core/src/ff/accumulator.rs', find='\n    #[inline]\n    fn multiply_accumulate(&mut self, lhs: F, rhs: F) {\n        self.value += A::from(lhs.as_u128()) * A::from(rhs.as_u128());\n        self.count += 1;\n        if self.count == REDUCE_INTERVAL {\n            // Modulo, not really a truncation.\n            self.value = A::from(F::truncate_from(self.value).as_u128());\n            self.count = 0;\n        }\n    }\n\n    #[inline]\n', replace='\n    #[inline]\n    fn multiply_accumulate(&mut self, lhs: F, rhs: F) {\n        let product = A::from(lhs.as_u128()) * A::from(rhs.as_u128());\n        self.value += product;\n        self.count += 1;\n        if self.count != REDUCE_INTERVAL {\n            // There is still room for more products before a reduction is required.\n            return;\n        }\n        // Modulo, not really a truncation.\n        let reduced = F::truncate_from(self.value);\n        self.value = A::from(reduced.as_u128());\n        self.count = 0;\n    }\n\n    #[inline]\n')]),
+    dict(prop="C20", name="b8-unauthorized-response-helper", benign=True,
+         edits=[dict(file='ipa-core/src/net/server/handlers/query/mod.rs', find='    fn call(&mut self, req: Request<B>) -> Self::Future {\n        match req.extensions().get::<ClientIdentity<F::Identity>>() {\n            Some(ClientIdentity(_)) => self.inner.call(req).left_future(),\n            None => ready(Ok((\n                StatusCode::UNAUTHORIZED,\n                "This API requires the client helper to authenticate",\n            )\n                .into_response()))\n            .right_future(),\n        }\n    }\n}\n\n#[cfg(all(test, unit_test))]\npub mod test_helpers {\n    use std::{any::Any, sync::Arc};\n', replace='    fn call(&mut self, req: Request<B>) -> Self::Future {\n        match req.extensions().get::<ClientIdentity<F::Identity>>() {\n            Some(ClientIdentity(_)) => self.inner.call(req).left_future(),\n            None => ready(Ok(unauthorized_response())).right_future(),\n        }\n    }\n}\n\n/// The response given to callers that did not present a verified peer identity.\nfn unauthorized_response() -> Response {\n    (\n        StatusCode::UNAUTHORIZED,\n        "This API requires the client helper to authenticate",\n    )\n        .into_response()\n}\n\n#[cfg(all(test, unit_test))]\npub mod test_helpers {\n    use std::{any::Any, sync::Arc};\n')]),
+    dict(prop="C20", name="b8-acceptor-closure-hoisted", benign=True,
+         edits=[dict(file='ipa-core/src/net/server/mod.rs', find='                }),\n        );\n        let handle = Handle::new();\n\n        let task_handle = match (self.config.disable_https, listener) {\n            (true, Some(listener)) => {\n', replace='                }),\n        );\n        let handle = Handle::new();\n        // Address to bind when the caller did not supply a listening socket.\n        let bind_addr = || SocketAddr::new(BIND_ADDRESS.into(), self.config.port.unwrap_or(0));\n        // TLS only: wraps the acceptor so that the peer identity comes from the client certificate.\n        let recognize_client_cert = |tls_acceptor: RustlsAcceptor| {\n            ClientCertRecognizingAcceptor::new(tls_acceptor, self.network_config.clone())\n        };\n\n        let task_handle = match (self.config.disable_https, listener) {\n            (true, Some(listener)) => {\n'), dict(file='ipa-core/src/net/server/mod.rs', find='                .await\n            }\n            (true, None) => {\n                let addr = SocketAddr::new(BIND_ADDRESS.into(), self.config.port.unwrap_or(0));\n                let svc = svc\n                    .layer(layer_fn(SetClientIdentityFromHeader::<_, F>::new))\n                    .into_make_service();\n', replace='                .await\n            }\n            (true, None) => {\n                let addr = bind_addr();\n                let svc = svc\n                    .layer(layer_fn(SetClientIdentityFromHeader::<_, F>::new))\n                    .into_make_service();\n'), dict(file='ipa-core/src/net/server/mod.rs', find='                    .expect("invalid TLS configuration");\n                spawn_server(\n                    runtime,\n                    axum_server::from_tcp_rustls(listener, rustls_config).map(|a| {\n                        ClientCertRecognizingAcceptor::new(a, self.network_config.clone())\n                    }),\n                    handle.clone(),\n                    svc.into_make_service(),\n                )\n                .await\n            }\n            (false, None) => {\n                let addr = SocketAddr::new(BIND_ADDRESS.into(), self.config.port.unwrap_or(0));\n                let rustls_config = rustls_config(&self.config, self.network_config.vec_peers())\n                    .await\n                    .expect("invalid TLS configuration");\n                spawn_server(\n                    runtime,\n                    axum_server::bind_rustls(addr, rustls_config).map(|a| {\n                        ClientCertRecognizingAcceptor::new(a, self.network_config.clone())\n                    }),\n                    handle.clone(),\n                    svc.into_make_service(),\n                )\n', replace='                    .expect("invalid TLS configuration");\n                spawn_server(\n                    runtime,\n                    axum_server::from_tcp_rustls(listener, rustls_config)\n                        .map(recognize_client_cert),\n                    handle.clone(),\n                    svc.into_make_service(),\n                )\n                .await\n            }\n            (false, None) => {\n                let addr = bind_addr();\n                let rustls_config = rustls_config(&self.config, self.network_config.vec_peers())\n                    .await\n                    .expect("invalid TLS configuration");\n                spawn_server(\n                    runtime,\n                    axum_server::bind_rustls(addr, rustls_config).map(recognize_client_cert),\n                    handle.clone(),\n                    svc.into_make_service(),\n                )\n')]),
 ]
 
 
